@@ -2178,7 +2178,7 @@ class SQLCompiler(Compiled):
                     replacement_expressions[escaped_name] = (
                         self.render_literal_bindparam(
                             parameter,
-                            render_literal_value=parameters.pop(escaped_name),
+                            render_literal_value=parameters.pop(name),
                         )
                     )
                 continue
